@@ -45,7 +45,8 @@ COMPONENTS = {"real": ["UDPEndpoint.datagram_received", "Endpoint.notify_listene
                        "Serializer and all registered Packers", "Network.load_snapshot"],
               "stub": ["UDP/IP (SimNet)", "wall clock", "OS RNG"]}
 ASSUMPTIONS = ["the native ipv8_rust_tunnels.Endpoint is not covered (PythonCryptoEndpoint is what runs)"]
-REACH = ["inj:prefix", "inj:msgid", "inj:short", "inj:lenrewrite", "inj:lenbump", "inj:cell", "inj:keyed_cell", "inj:random", "reached_handler",
+REACH = ["inj:prefix", "inj:msgid", "inj:short", "inj:lenrewrite", "inj:lenbump", "inj:cell", "inj:keyed_cell", "inj:quit", "inj:relay_half",
+         "listener_removed_itself_during_delivery", "relay_half_expired", "inj:random", "reached_handler",
          "direct_decode", "direct_decode_accepted", "codec_classes", "statistics_endpoint_listening", "endpoint_wrapped_in_tunnel_endpoint",
          "cell_branch_circuit", "cell_branch_exit", "decode_exact_end", "snapshot_truncations"]
 
@@ -240,6 +241,17 @@ def execute(case: dict) -> dict:  # noqa: C901, PLR0915
             for pfx in [*prefixes, foreign_prefix]:
                 stats_ep.enable_community_statistics(pfx, True)
             world.probe("statistics_endpoint_listening")
+        quit_marker = foreign_prefix + b"\x01QUIT"
+
+        class Quitter(EndpointListener):
+            """A listener that deregisters itself from inside its own on_packet (what an overlay unloaded by a handler does)."""
+
+            def on_packet(self, packet, warn_unknown=True) -> None:  # noqa: ANN001
+                if packet[1] == quit_marker:
+                    world.probe("listener_removed_itself_during_delivery")
+                    ep.remove_listener(self)
+        quitter = victim.call(Quitter, ep)
+        ep.add_listener(quitter)
         w_general = victim.call(Witness, ep)
         w_foreign = victim.call(Witness, ep)
         ep.add_listener(w_general)
@@ -397,6 +409,25 @@ def execute(case: dict) -> dict:  # noqa: C901, PLR0915
                 for ln in range(65):
                     for fill in (b"\x00", b"\xff", None):
                         inject("short", rng.randbytes(ln) if fill is None else fill * ln)
+            if what == "final":
+                # I. a listener in front of the witnesses removes itself while the datagram is being delivered
+                inject("quit", quit_marker)
+            if i >= 2 and "relay_half" not in done_types:
+                # J. one half of a relay pair has expired on its own (the sweep removes each half by its own clock); cells for the
+                # surviving half keep arriving
+                for ov in ovs:
+                    rel = getattr(ov, "relay_from_to", None)
+                    if not rel:
+                        continue
+                    for cid in sorted(rel)[:2]:
+                        other = rel[cid].circuit_id if cid in rel else None
+                        if other is None or other not in rel:
+                            continue
+                        rel.pop(other)
+                        done_types.add("relay_half")
+                        world.probe("relay_half_expired")
+                        for flags in (b"\x00\x00", b"\x00\x01", b"\x01\x00"):
+                            inject("relay_half", ov.get_prefix() + b"\x00" + cid.to_bytes(4, "big") + flags + rng.randbytes(rng.choice([1, 40, 200])))
             # E. random
             for _ in range(40 if stride > 1 else 200):
                 ln = rng.choice([rng.randrange(0, 64), rng.randrange(64, 1500)])
